@@ -152,6 +152,14 @@ def run(ctx):
         ctx.violation(fp, f"recorded history (width {hist[0]['w']}, {len(hist)} calls): {short(e)} disagrees with the specification on {clause}",
                       {"kind": "seq-history", "history": hist[-50:] if len(hist) > 50 else hist, "w": hist[0]["w"], "w_at": w_at,
                        "calls_before": len(hist)})
+    from .. import repotests
+    bad = ctx.validate_trace("Trace_SeqCount", repotests.counter_histories(ctx), "repo-tests")
+    for i, clause in sorted(bad.items()):
+        hist = ctx.trace_history(i)
+        e = hist[-1]
+        ctx.violation(f"seq.{e['op']}/{clause}/mode=repo-test,w={hist[0]['w']}",
+                      f"counter call made by {hist[0].get('test')} (width {hist[0]['w']}): {short(e)} disagrees with the specification on {clause}",
+                      {"kind": "seq-history", "history": hist, "w": hist[0]["w"], "w_at": hist[0]["w"], "calls_before": len(hist)})
     ctx.exhaustive = True
     ctx.extra["exhaustive_note"] = "all call/restart/fault interleavings for the listed small widths; long random histories beyond"
 
